@@ -1533,8 +1533,8 @@ where
             // Register packet ID for QoS 1 or 2
             let packet_id = packet.packet_id().unwrap();
             if self.status != ConnectionStatus::Connected
-                && !self.need_store
                 && !self.offline_publish
+                && (!self.need_store || self.status == ConnectionStatus::Disconnected)
             {
                 events.push(GenericEvent::NotifyError(MqttError::PacketNotAllowedToSend));
                 if self.pid_man.is_used_id(packet_id) {
@@ -1600,8 +1600,8 @@ where
         if packet.qos() == Qos::AtLeastOnce || packet.qos() == Qos::ExactlyOnce {
             let packet_id = packet.packet_id().unwrap();
             if self.status != ConnectionStatus::Connected
-                && !self.need_store
                 && !self.offline_publish
+                && (!self.need_store || self.status == ConnectionStatus::Disconnected)
             {
                 events.push(GenericEvent::NotifyError(MqttError::PacketNotAllowedToSend));
                 if self.pid_man.is_used_id(packet_id) {
